@@ -32,7 +32,7 @@ func init() {
 		rule: e2Universe + "Oracle: differential. Batches of 16 accepted programs (whose interpretation trips no C01/C02 monitor and does not exhaust the fuel) are translated by the tree's wuffs-c, compiled with gcc -O1 ASan+UBSan into one driver and run; per history the canonical trace (initialize status, each call's returned value or status, per coroutine call status/ri/wi, output bytes, all public pure getters after every step) printed by the C driver must equal the reference interpreter's text; a sanitizer report, a gcc rejection of the emitted C or a wuffs-c failure on an accepted program is a violation too. Non-trivial = compared program whose histories have >= 3 steps; distinct by source hash.",
 		assumptions:   []string{"the reference semantics is the interpreter's reading of doc/note/*.md; a disagreement is triaged as 'is the doc ambiguous?' before it is called a defect", "multi-byte coroutine writers (known finding T3) are not generated"},
 		minNontrivial: 300,
-		quick:         tier{jobs: []job{{name: "differential", run: "^TestPropC04$", shards: 16, checks: 4, timeout: 30 * time.Minute}}},
+		quick:         tier{jobs: []job{{name: "differential", run: "^TestPropC04$", shards: 16, checks: 5, timeout: 30 * time.Minute}}},
 		thorough:      tier{jobs: []job{{name: "differential", run: "^TestPropC04$", shards: 16, checks: 80, timeout: 240 * time.Minute}}},
 	})
 }
